@@ -50,6 +50,11 @@ type Op struct {
 	New   int      `json:"newset,omitempty"`
 	Const int      `json:"const,omitempty"`
 	Data  *Val     `json:"data,omitempty"`
+	// Hold > 0 (Lookup only): keep the returned handle in slot Hold.
+	// Held > 0: use the handle kept in that slot as receiver (if there is one;
+	// otherwise the receiver is looked up by name as usual).
+	Hold int `json:"hold,omitempty"`
+	Held int `json:"held,omitempty"`
 }
 
 // Op kinds.
